@@ -64,6 +64,49 @@ func c18Transcripts(c *kc.Ctx) []kc.Case {
 			}
 		}
 	}
+	// Pick / Embed / Data on the same stream and data must agree between implementations of one group
+	for _, m := range order {
+		insts := byMath[m]
+		if !insts[0].CanEmbed {
+			continue
+		}
+		rng := c.Rng.Fork("c18embed/" + m)
+		el := insts[0].Group.Point().EmbedLen()
+		for i := 0; i < c.N(30, 400); i++ {
+			var data []byte
+			switch i % 8 {
+			case 0:
+				data = nil
+			case 1:
+				data = []byte{}
+			case 2:
+				data = rng.Bytes(1)
+			case 3:
+				data = rng.Bytes(el)
+			case 4:
+				data = rng.Bytes(el + 1 + rng.Intn(8))
+			case 5:
+				data = rng.Bytes(el - 1)
+			default:
+				data = rng.Bytes(rng.Intn(el + 1))
+			}
+			seed := rng.U64()
+			key := fmt.Sprintf("embed|%d|%v|%x", seed, data == nil, data)
+			for _, g := range insts {
+				g := g
+				got := kc.Recover(func() string {
+					p := g.Group.Point().Embed(data, kc.NewRng(seed))
+					d, err := p.Data()
+					ds := kc.HexB(d)
+					if err != nil {
+						ds = "err"
+					}
+					return pointVal(p) + "|data=" + ds
+				})
+				cases = append(cases, kc.Case{Impl: g.Name + "/" + groups.BuildConfig, Kind: "embed:" + m, Line: "nomodel " + m + " " + key, Got: got, Key: key})
+			}
+		}
+	}
 	return cases
 }
 
